@@ -1,14 +1,18 @@
 #!/bin/bash
-# usage: tools/try_seeded.sh <seed-dir-name> <check id> [more check ids]   -- applies seeded/<name>/patch.diff to /repo, runs the quick checks, reverts
+# usage: tools/try_seeded.sh <seed-dir-name | path/to/patch.diff> <check id> [more check ids]
+# Applies the patch to a scratch worktree of /repo HEAD (never to /repo), runs the quick checks against it
+# (XOBJECTS_REPO), removes the worktree.  Evidence goes to a scratch directory, not to /verif/evidence.
 set -u
 cd "$(dirname "$0")/.."
 name=$1; shift
-if ! git -C /repo diff --quiet; then echo "/repo is dirty"; exit 2; fi
-git -C /repo apply "$PWD/seeded/$name/patch.diff" || exit 2
+patch=$name; [ -f "$patch" ] || patch="$PWD/seeded/$name/patch.diff"
+patch=$(readlink -f "$patch")
+wt=$(mktemp -d /tmp/seedwt_XXXXXX); rmdir "$wt"
+git -C /repo worktree add -q --detach "$wt" HEAD || exit 2
+trap 'git -C /repo worktree remove --force "$wt" 2>/dev/null; rm -rf "$wt" /tmp/seeded_evidence_$$' EXIT
+git -C "$wt" apply "$patch" || { echo "patch does not apply"; exit 2; }
 for id in "$@"; do
   echo "=== seeded $name -> check $id"
-  VERIF_EVIDENCE_DIR=/tmp/seeded_evidence ./check "$id" --tier quick 2>&1 | tail -n 12
+  XOBJECTS_REPO="$wt" VERIF_EVIDENCE_DIR=/tmp/seeded_evidence_$$ VERIF_OUT_DIR=/tmp/seeded_evidence_$$/out ./check "$id" --tier ${TIER:-quick} 2>&1 | grep -E "VIOLATION|KNOWN-FINDING|MACHINERY|^\[" | cut -c1-500 | head -n 12
   echo "rc=${PIPESTATUS[0]}"
 done
-git -C /repo checkout -- .
-git -C /repo status --short | head -3
